@@ -1,6 +1,7 @@
 """Parent side of a check: spawn worker interpreters, gather records, confirm findings
 by replay in a fresh interpreter, apply the known-findings file, write evidence."""
 
+import glob
 import json
 import os
 import shutil
@@ -128,6 +129,12 @@ def run_check(prop_id, tier, base_seed=None):
                        hashseed=spec.get("hashseed", "0"), offset=spec.get("offset", 0),
                        numba_threads=spec.get("numba_threads"), seed_tag=spec.get("seed_tag"),
                        group=mode_key if mode_key != mode else "")
+    if glob.glob(os.path.join(core.VERIF_ROOT, "corpus", f"{prop_id}-*.json")):
+        out = os.path.join(outdir, "corpus.jsonl")
+        log = open(out + ".log", "w")
+        cp = subprocess.Popen([PY, "-m", "ticcsim.worker", "--prop", prop_id, "--corpus", "--out", out],
+                              env=core.mode_env("nojit"), cwd=core.VERIF_ROOT, stdout=log, stderr=subprocess.STDOUT)
+        procs.append((cp, out, log))
     records, harness, truncated = gather(procs, hard)
     wall_runs = time.time() - t0
 
@@ -197,8 +204,9 @@ def run_check(prop_id, tier, base_seed=None):
     modes = {}
     for r in records:
         modes[r.get("mode")] = modes.get(r.get("mode"), 0) + 1
+    n_eval = sum(1 for r in records if r.get("idx", 0) >= 0)
     coverage = dict(
-        evaluations=len(records),
+        evaluations=n_eval,
         distinct_nontrivial=len(sigs),
         rule=prop.rule,
         samples=samples or [dict(note="no sample recorded")],
@@ -230,7 +238,7 @@ def run_check(prop_id, tier, base_seed=None):
         print(f"  oracle={key} cases={n} detail={detail}")
     for h in harness[:10]:
         print("HARNESS " + h.replace("\n", " | ")[:1500])
-    print(f"{prop_id} {tier}: {len(records)} cases, {sim_runs} simulated runs, "
+    print(f"{prop_id} {tier}: {n_eval} cases, {sim_runs} simulated runs, "
           f"{len(sigs)} distinct non-trivial, {len(violations)} violation(s), "
           f"{len(known_hits)} known finding(s), {wall:.1f}s")
     shutil.rmtree(outdir, ignore_errors=True)
